@@ -121,6 +121,37 @@ Definition matches (f : afilter) (addr : ip) : bool :=
   | WildcardIpv4 w => wc_matches w addr
   end.
 
+(* ---------- the C-ABI filter string (ffi server.rs parse_address_filter), IPv4 part ---------- *)
+(* core::net::parser read_number(10, Some(3), allow_zero_prefix = false) followed by '.' or end:
+   1..3 decimal digits, no leading zero unless the number is "0", value <= 255 (checked u8 arithmetic) *)
+Definition parse_octet (f : str) : option N :=
+  match f with
+  | [] => None
+  | c :: r =>
+      if N.eqb c ch_zero && negb (match r with [] => true | _ => false end) then None
+      else if Nat.ltb 3 (List.length f) then None
+      else if N.eqb c ch_plus then None
+      else digits 0 f
+  end.
+
+Definition parse_ipv4 (s : str) : option ip :=
+  match split s with
+  | [f3; f2; f1; f0] =>
+      match parse_octet f3, parse_octet f2, parse_octet f1, parse_octet f0 with
+      | Some a, Some b, Some c, Some d => Some (V4 a b c d)
+      | _, _, _, _ => None
+      end
+  | _ => None
+  end.
+
+(* ffi server.rs parse_address_filter, IPv4 part: first an IP literal (one-element set), else a wildcard *)
+Definition ffi_filter_v4 (s : str) : option afilter :=
+  match parse_ipv4 s with
+  | Some a => Some (AnyOf [a])
+  | None => option_map WildcardIpv4 (parse_wildcard s)
+  end.
+
+
 (* ---------- the accept arm of ServerTask::run, driven by the GENERATED shape ---------- *)
 (* what the server task does with a freshly accepted (socket, addr), as the sequence of calls the
    arm makes; `CallHandle` = self.handle(socket, addr): the only call that registers the connection
@@ -191,5 +222,12 @@ Local Open Scope string_scope.
 Definition show_field (o : option N) : string := match o with None => "*" | Some v => show_N v end.
 Definition show_wildcard (w : wildcard) : string :=
   show_field (b3 w) ++ "." ++ show_field (b2 w) ++ "." ++ show_field (b1 w) ++ "." ++ show_field (b0 w).
+Definition show_ffi_filter (s : str) : string :=
+  match ffi_filter_v4 s with
+  | Some (AnyOf [V4 a b c d]) => "SET:" ++ show_N a ++ "." ++ show_N b ++ "." ++ show_N c ++ "." ++ show_N d
+  | Some (WildcardIpv4 w) => "WC:" ++ show_wildcard w
+  | Some _ => "?"
+  | None => "ERR:InvalidIpAddress"
+  end.
 Definition show_parse (s : str) : string :=
   match parse_wildcard s with None => "ERR" | Some w => show_wildcard w end.
